@@ -1353,14 +1353,11 @@ func run(m *mon.M) {
 			idx = append(idx, i)
 		}
 	}
-	full := !m.Quick()
+	full := true // both tiers use every literal of the pools
 	if m.Quick() {
 		r.Shuffle(len(idx), func(i, j int) { idx[i], idx[j] = idx[j], idx[i] })
-		if n := len(idx) / 2; n > 0 {
-			idx = idx[:n]
-		}
 	}
-	passes := m.N(1, 4) // the random parts (array texts, repeated pairs, header-name spellings) are re-drawn per pass
+	passes := m.N(2, 40) // the random parts (array texts, repeated pairs, header-name spellings) are re-drawn per pass
 	if m.Shard == 0 {
 		m.Note("declarations_in_space", int64(len(decls)))
 	}
